@@ -1,1 +1,37 @@
 // contracts and harnesses for src/atomicsignal.rs (included as multiqueue2::atomicsignal::verif_contracts)
+use super::*;
+use crate::verif_hooks::*;
+
+impl AtomicSignal {
+    pub(crate) fn vf_bits(&self) -> usize {
+        self.flags.peek()
+    }
+    pub(crate) fn vf_set_bits(&self, v: usize) {
+        self.flags.poke(v)
+    }
+}
+
+#[cfg(kani)]
+mod proofs {
+    use super::*;
+
+    /// P11: bit algebra of the signal word, all 2^64 flag words
+    #[kani::proof]
+    fn p11_signal_bits() {
+        let f: usize = kani::any();
+        let s = AtomicSignal::new();
+        assert!(s.vf_bits() == 0 && !s.load(Ordering::Relaxed).has_action());
+        s.vf_set_bits(f);
+        let l = s.load(Ordering::Relaxed);
+        assert!(l.has_action() == (f != 0));
+        assert!(l.get_epoch() == (f & 1 != 0));
+        assert!(l.get_reader() == (f & 2 != 0));
+        let prev = s.set_reader(Ordering::SeqCst);
+        assert!(prev == (f & 2 != 0) && s.vf_bits() == f | 2, "C13: set_reader sets exactly the no-reader bit");
+        let prev = s.set_epoch(Ordering::Release);
+        assert!(prev == (f & 1 != 0) && s.vf_bits() == f | 3);
+        let prev = s.clear_epoch(Ordering::Release);
+        assert!(prev && s.vf_bits() == (f | 2) & !1, "clear_epoch clears exactly the epoch bit (the no-reader bit survives)");
+        assert!(s.load(Ordering::Relaxed).get_reader(), "C13: the no-reader bit is never cleared by epoch traffic");
+    }
+}
